@@ -92,3 +92,9 @@ static inline void *ir2c_realloc(void *p, u64 n)
 static inline void *ir2c_malloc_noted(u64 n) { return ir2c_new(n); }
 static inline void *ir2c_realloc(void *p, u64 n) { return realloc(p, n); }
 #endif
+/* "does p point into [b, b+len]" (muscleInRange is inclusive) without ordering pointers of different objects */
+#ifdef __CPROVER__
+static inline u1 ir2c_ptr_in_range(const u8 *p, const u8 *b, u64 len) { if (!__CPROVER_same_object(p, b)) return 0; return (u1)(__CPROVER_POINTER_OFFSET(p) >= __CPROVER_POINTER_OFFSET(b) && __CPROVER_POINTER_OFFSET(p) <= __CPROVER_POINTER_OFFSET(b) + len); }
+#else
+static inline u1 ir2c_ptr_in_range(const u8 *p, const u8 *b, u64 len) { return (u1)(p >= b && p <= b + len); }
+#endif
